@@ -234,7 +234,7 @@ Definition c36_step (k : trk) (o : wop) (r : ret) : trk * list N :=
   | WSqT i _ =>
       match nthz (k_T k) i with
       | Some te => (k, chk_use (topic_entry_live k te) r (stale_topic_cls k te)) | None => (k, []) end
-  | WH _ _ => (k, [])
+  | WH _ _ | WKeepnet | WSettle | WMpd _ _ | WMsd _ _ => (k, [])
   | WBurnG _ p _ | WBurnT p _ => (k, chk_use (part_live k p) (match r with RBurn _ x => x | x => x end) 0%N)
   | WBurnE sd g _ _ =>
       match nthz (k_G sd k) g with
